@@ -1151,6 +1151,20 @@ class DetQueue:
         s.point('q.get', self, enabled=lambda: bool(self._items), idle=True)
         return self._items.pop(0)
 
+    def get_nowait(self):
+        import queue as _q
+        self._sched.point('q.get_nowait', self)
+        if not self._items:
+            raise _q.Empty()
+        return self._items.pop(0)
+
+    def put_nowait(self, item):
+        import queue as _q
+        self._sched.point('q.put_nowait', self)
+        if self._maxsize and len(self._items) >= self._maxsize:
+            raise _q.Full()
+        self._items.append(item)
+
     def qsize(self):
         return len(self._items)
 
